@@ -25,7 +25,7 @@ MECH = ["nutree.fs:load_tree_from_fs", "nutree.fs:FileSystemEntry.__init__", "nu
         "nutree.fs:FileSystemTree.deserialize_mapper"]
 MIN_NONTRIVIAL = {"quick": 60, "thorough": 1500}
 NAMES = ["a", "B", "a.b", "a-b", "a b", "ä", "Z", "z", "10", "9", "_x", "日本", "a.txt", "A.txt", "b", "c.d.e", "é", "~t",
-         "e\u0301", "A\u030a.txt"]  # decomposed forms: other names than their composed twins ("é")
+         "e\u0301", "A\u030a.txt", ".hidden", ".config", "..twodots", ".a.b"]  # decomposed forms: other names than their composed twins ("é")
 
 
 def make_dir(rng, root):
